@@ -170,13 +170,24 @@ def corpus_edits(toks):
                 if t.startswith('b') and what in ('unknown name',):
                     continue
                 yield 'string-form', (data[:a] + bad.encode() + data[b:]).decode(), a, n + 8, what
+            # the offending construct of a bytes/text mix is the whole implicit concatenation the token belongs to
+            is_str = lambda x: x[:1] in '\'"' or (x[:1] in 'bBuUrRfF' and ("'" in x[:3] or '"' in x[:3]))
+            a0, j = a, k - 1
+            while j >= 0 and is_str(real[j][1]):
+                a0 = pos[real[j][0]][0]
+                j -= 1
+            cat_extra, j = 0, k + 1
+            while j < len(real) and is_str(real[j][1]):
+                cat_extra = pos[real[j][0]][1] - b
+                j += 1
             if t == "b'x'":
-                yield 'bytes-ascii', (data[:a] + "b'é'".encode() + data[b:]).decode(), a, a + 6, 'non-ascii'
-                yield 'bytes-mix', (data[:a] + b"b'x' 's'" + data[b:]).decode(), a, a + 9, "b 's'"
-                yield 'bytes-mix', (data[:a] + b"'s' b'x'" + data[b:]).decode(), a, a + 9, "'s' b"
-                yield 'bytes-mix', (data[:a] + b"b'x' f'{a}'" + data[b:]).decode(), a, a + 12, 'b f'
+                for lit in ("b'é'", "b'\\é'", "b'x\\€y'", "rb'é'", "b'''é'''", "b'x' b'\\é'", "Rb'\\é'"):
+                    yield 'bytes-ascii', (data[:a] + lit.encode() + data[b:]).decode(), a, a + len(lit.encode()) + 1, 'non-ascii ' + lit
+                yield 'bytes-mix', (data[:a] + b"b'x' 's'" + data[b:]).decode(), a0, a + 9 + cat_extra, "b 's'"
+                yield 'bytes-mix', (data[:a] + b"'s' b'x'" + data[b:]).decode(), a0, a + 9 + cat_extra, "'s' b"
+                yield 'bytes-mix', (data[:a] + b"b'x' f'{a}'" + data[b:]).decode(), a0, a + 12 + cat_extra, 'b f'
             if t == "'s'":
-                yield 'bytes-mix', (data[:a] + b"'s' b'x'" + data[b:]).decode(), a, a + 9, "'s' b"
+                yield 'bytes-mix', (data[:a] + b"'s' b'x'" + data[b:]).decode(), a0, a + 9 + cat_extra, "'s' b"
 
 
 def single_violation(combo, wrap):
